@@ -1,9 +1,18 @@
-(* C18 — property theorems only: each closed by [exact] of a lemma proved elsewhere. *)
-From Coq Require Import List String NArith.
-From Helm Require Import Misc.Semver Misc.SemverProofs.
+(* C18 — property theorems only: each closed by [exact] of a lemma proved elsewhere.
+
+   Vocabulary (Misc/Index.v): [valid_entries cvs] = the decoded elements of a chart's list that
+   are non-null and pass Metadata.Validate after the loader's defaults; [ege a b] / [tge a b] =
+   both versions parse and a's precedence is not below b's; [best_entry p l r] = r is an
+   element of l accepted by p and at least as new as every accepted element of l;
+   [none_entry p l] = no parsable element of l is accepted (same for tags).
+   [sort] stands for sort.Sort, [cvalid]/[sat] for semver.NewConstraint / Constraints.Check. *)
+From Coq Require Import List String NArith Sorting.Permutation Sorting.Sorted.
+From Helm Require Import Misc.Semver Misc.SemverProofs Misc.Index Misc.IndexProofs.
+Import ListNotations.
+Local Open Scope string_scope.
 
 (* Semantic-version precedence (the model of Version.Compare) is a total preorder on ALL
-   versions and is antisymmetric up to build metadata / spelling. *)
+   versions: reflexive, transitive, total; antisymmetric up to build metadata / spelling. *)
 Theorem C18_precedence_total_preorder :
   (forall a, vcompare a a = Eq) /\
   (forall a b c, vcompare a b <> Gt -> vcompare b c <> Gt -> vcompare a c <> Gt) /\
@@ -12,3 +21,160 @@ Theorem C18_precedence_total_preorder :
   (forall a b, vcompare a b = Eq <-> vkey a = vkey b).
 Proof. exact vcompare_total_preorder. Qed.
 Print Assumptions C18_precedence_total_preorder.
+
+(* the precedence chain of section 11 of the specification, and coercion *)
+Example C18_precedence_spec_chain : chain_lt spec11_chain = true.
+Proof. exact spec11_chain_ok. Qed.
+Print Assumptions C18_precedence_spec_chain.
+
+Example C18_precedence_coercion :
+  match parse_version "v1.1", parse_version "1.1.0+b1", parse_version "1.1.0" with
+  | Some a, Some b, Some c => vcompare a b = Eq /\ vcompare b c = Eq /\ vorig a <> vorig c
+  | _, _, _ => False
+  end.
+Proof. exact coerced_same_class. Qed.
+Print Assumptions C18_precedence_coercion.
+
+(* Loading: whatever the order, validity or nullness of the elements, every chart's loaded
+   list is a permutation of exactly its valid entries, newest first, and the loader does not
+   panic; the only remaining failure is a missing apiVersion. *)
+Theorem C18_load_wf :
+  forall sort : list entry -> list entry,
+    (forall l, Permutation l (sort l)) ->
+    (forall l, Forall (fun e => parse_version (eversion e) <> None) l ->
+               StronglySorted (fun a b => go_less a b = false) (sort l)) ->
+    forall (api : string) (es : list (string * list cv)),
+    exists idx,
+      load_index sort (IFParsed api es) = (if String.eqb api "" then LErr ENoAPI else LOk idx) /\
+      Forall2 (fun x y => fst x = fst y /\
+                          Permutation (snd y) (valid_entries (snd x)) /\
+                          StronglySorted ege (snd y) /\
+                          Forall (fun e => validate e = Some e) (snd y)) es idx.
+Proof. exact load_wf_thm. Qed.
+Print Assumptions C18_load_wf.
+
+(* the two hypotheses on [sort] are met by a concrete sorting function *)
+Example C18_sort_hypotheses_satisfiable :
+  (forall l, Permutation l (isort l)) /\
+  (forall l, Forall (fun e => parse_version (eversion e) <> None) l ->
+             StronglySorted (fun a b => go_less a b = false) (isort l)).
+Proof. exact sort_hypotheses_satisfiable. Qed.
+Print Assumptions C18_sort_hypotheses_satisfiable.
+
+Example C18_load_example : load_index isort ex_file = LOk ex_idx.
+Proof. exact example_load. Qed.
+Print Assumptions C18_load_example.
+
+(* Get on a loaded index: unknown name / no valid version are reported; an empty version
+   yields a highest stable entry (an error when there are only pre-releases); otherwise an
+   entry whose version string is identical if there is one, else a highest entry satisfying
+   the constraint, else an error. *)
+Theorem C18_get_best :
+  forall sort : list entry -> list entry,
+    (forall l, Permutation l (sort l)) ->
+    (forall l, Forall (fun e => parse_version (eversion e) <> None) l ->
+               StronglySorted (fun a b => go_less a b = false) (sort l)) ->
+    forall (cvalid : string -> bool) (sat : string -> version -> bool),
+    (forall v, sat "*" v = is_stable v) ->
+    forall api es idx, load_index sort (IFParsed api es) = LOk idx ->
+    forall name ver,
+      match assoc name idx with
+      | None => get cvalid sat idx name ver = GErrNoName
+      | Some vs =>
+          (vs = [] -> get cvalid sat idx name ver = GErrNoVersion) /\
+          (vs <> [] ->
+             (ver = "" ->
+                (exists e, get cvalid sat idx name ver = GOk e /\ best_entry is_stable vs e) \/
+                (get cvalid sat idx name ver = GErrNotFound /\ none_entry is_stable vs)) /\
+             (ver <> "" -> cvalid ver = false -> get cvalid sat idx name ver = GErrConstraint) /\
+             (ver <> "" -> cvalid ver = true ->
+                (forall e0, In e0 vs -> eversion e0 = ver ->
+                   exists e, get cvalid sat idx name ver = GOk e /\ In e vs /\ eversion e = ver) /\
+                ((forall e0, In e0 vs -> eversion e0 <> ver) ->
+                   (exists e, get cvalid sat idx name ver = GOk e /\ best_entry (sat ver) vs e) \/
+                   (get cvalid sat idx name ver = GErrNotFound /\ none_entry (sat ver) vs))))
+      end.
+Proof. exact get_best_thm. Qed.
+Print Assumptions C18_get_best.
+
+Example C18_star_hypothesis_satisfiable : forall v, ex_sat "*" v = is_stable v.
+Proof. exact example_star. Qed.
+Print Assumptions C18_star_hypothesis_satisfiable.
+
+Example C18_get_example :
+  get (fun _ => true) ex_sat ex_idx "app" "" = GOk (ex_entry "v1.2" "d5" []) /\
+  get (fun _ => true) ex_sat ex_idx "app" "1.1.0+b1" = GOk (ex_entry "1.1.0+b1" "d6" ["u6"]) /\
+  get (fun _ => true) ex_sat ex_idx "app" "^1" = GOk (ex_entry "v1.2" "d5" []) /\
+  get (fun _ => true) ex_sat ex_idx "pre" "" = GErrNotFound /\
+  get (fun _ => true) ex_sat ex_idx "none" "" = GErrNoName /\
+  resolve (fun _ => true) ex_sat (LOk ex_idx) [mkDep "app" "^1"] = Some ["1.1.0+b1"] /\
+  resolve (fun _ => true) ex_sat (LOk ex_idx) [mkDep "app" "^1"; mkDep "pre" "*"] = None.
+Proof. exact example_queries. Qed.
+Print Assumptions C18_get_example.
+
+(* GetTagMatchingVersionOrConstraint on a tag list whose parsable tags are in descending
+   order: the identical tag if present (even when the string is no constraint), else a
+   highest tag satisfying the constraint / a highest stable tag for the empty string. *)
+Theorem C18_tag_match :
+  forall (cvalid : string -> bool) (sat : string -> version -> bool),
+    (forall v, sat "*" v = is_stable v) ->
+    forall tags ver,
+      StronglySorted tge (filter is_valid_version tags) ->
+      (ver = "" ->
+         (exists t, tag_match cvalid sat tags ver = TOk t /\ best_tag is_stable tags t) \/
+         (tag_match cvalid sat tags ver = TErrNotFound /\ none_tag is_stable tags)) /\
+      (ver <> "" -> In ver tags -> tag_match cvalid sat tags ver = TOk ver) /\
+      (ver <> "" -> ~ In ver tags -> cvalid ver = false ->
+         tag_match cvalid sat tags ver = TErrConstraint) /\
+      (ver <> "" -> ~ In ver tags -> cvalid ver = true ->
+         (exists t, tag_match cvalid sat tags ver = TOk t /\ best_tag (sat ver) tags t) \/
+         (tag_match cvalid sat tags ver = TErrNotFound /\ none_tag (sat ver) tags)).
+Proof. exact tag_match_thm. Qed.
+Print Assumptions C18_tag_match.
+
+Example C18_tag_hypothesis_satisfiable : StronglySorted tge (filter is_valid_version ex_tags).
+Proof. exact example_tags_sorted. Qed.
+Print Assumptions C18_tag_hypothesis_satisfiable.
+
+Example C18_tag_example :
+  tag_match (fun _ => true) ex_sat ex_tags "" = TOk "v1.2" /\
+  tag_match (fun _ => false) ex_sat ex_tags "nightly" = TOk "nightly" /\
+  tag_match (fun _ => false) ex_sat ex_tags "weekly" = TErrConstraint.
+Proof. exact example_tag_match. Qed.
+Print Assumptions C18_tag_example.
+
+(* Resolve against a loaded (cached) index: a lock is produced exactly when every dependency
+   has a valid range, is in the index and has an entry with a URL in range; each dependency
+   is then locked to the version string of a highest such entry. *)
+Theorem C18_resolve :
+  forall sort : list entry -> list entry,
+    (forall l, Permutation l (sort l)) ->
+    (forall l, Forall (fun e => parse_version (eversion e) <> None) l ->
+               StronglySorted (fun a b => go_less a b = false) (sort l)) ->
+    forall (cvalid : string -> bool) (sat : string -> version -> bool),
+    forall api es idx, load_index sort (IFParsed api es) = LOk idx ->
+    forall ds,
+      match resolve cvalid sat (LOk idx) ds with
+      | Some locks =>
+          Forall2 (fun d v =>
+                     cvalid (dconstraint d) = true /\
+                     exists vs e, assoc (dname d) idx = Some vs /\ eversion e = v /\
+                                  best_entry (sat (dconstraint d)) (filter has_urls vs) e)
+                  ds locks
+      | None =>
+          exists d, In d ds /\
+                    (cvalid (dconstraint d) = false \/ assoc (dname d) idx = None \/
+                     exists vs, assoc (dname d) idx = Some vs /\
+                                none_entry (sat (dconstraint d)) (filter has_urls vs))
+      end.
+Proof. exact resolve_thm. Qed.
+Print Assumptions C18_resolve.
+
+(* F3 (fixed by 161cdc1): with the old nil branch (`continue` without removal) a null element
+   stays in the list and the sort's Less dereferences it — a panic; the repaired loop loads
+   the same file. *)
+Theorem C18_nil_entry_refuted :
+  exists cvs, load_versions_prefix isort cvs = None /\
+              exists vs, load_versions isort cvs = Some vs /\ List.length vs = 2.
+Proof. exact nil_entry_refuted. Qed.
+Print Assumptions C18_nil_entry_refuted.
